@@ -30,6 +30,11 @@
 (*    matte  - where |light - p| is an integer the lit value is the closed    *)
 (*             form cos(theta) = n.(light - p) / |light - p| (unit light,     *)
 (*             unit albedo), compared by cross-multiplication                 *)
+(* kind "frame": DirectionalCamera(box, direction, its own field of view):    *)
+(*    [box, dir, inside: <<BOOLEAN per corner>>, infront: <<BOOLEAN>>]          *)
+(*    frame - the auto-framing camera really contains the object: every corner *)
+(*            of the bounding box is in front of the camera and projects into  *)
+(*            the frame with the helper's 5 percent margin                     *)
 (* kind "camera": [w, h, pts: <<[x, y, c: <<3 ints>>, cexact, ux, uy,       *)
 (*                 uexact]>>]                                               *)
 (*    caster   - the direction of pixel (x, y), decomposed along the        *)
@@ -155,12 +160,14 @@ Holds(c) ==
             /\ Len(R.casts) = R.w * R.h
       [] R.kind = "hit" /\ c = "nearest" -> R.panic = "" /\ \A i \in 1..Len(R.rays) : RayOK(R.rays[i])
       [] R.kind = "shadow" /\ c = "lit" -> R.panic = "" /\ \A i \in 1..Len(R.pts) : ShadowPtOK(R.pts[i])
+      [] R.kind = "frame" /\ c = "frame" -> R.panic = "" /\ Len(R.inside) = 8
+                                            /\ \A i \in 1..Len(R.inside) : R.inside[i] /\ R.infront[i]
       [] R.kind = "camera" /\ c = "caster" ->
             \A i \in 1..Len(R.pts) : LET p == R.pts[i] IN p.cexact /\ p.c = CamDir(R.w, R.h, p.x, p.y)
       [] R.kind = "camera" /\ c = "uncaster" ->
             \A i \in 1..Len(R.pts) : LET p == R.pts[i] IN p.uexact /\ p.ux = 1000 * p.x /\ p.uy = 1000 * p.y
       [] OTHER -> TRUE
-Clauses == {"once", "nearest", "lit", "caster", "uncaster"}
+Clauses == {"once", "nearest", "lit", "frame", "caster", "uncaster"}
 Fails == {c \in Clauses : ~Holds(c)}
 \* how many rays of a hit record were in general position and hit something (vacuity counter)
 Decided == IF R.kind = "hit"
